@@ -149,6 +149,8 @@ type Runner struct {
 	Stats     Stats
 	probeFlip bool
 	phRng     *rand.Rand
+	prevRead  []byte
+	prevCopy  []byte
 }
 
 // NewRunner creates a runner over an opened environment.
@@ -256,6 +258,15 @@ func expectString(e refmodel.Expect) string {
 
 // checkRead compares a read result with the model's expectation.
 func (r *Runner) checkRead(idx int, s Step, probe, op string, actor int, key string, val []byte, err error) *Mismatch {
+	// a slice handed out by an earlier Get belongs to the caller: a later call must not change it
+	if r.prevRead != nil && !bytes.Equal(r.prevRead, r.prevCopy) {
+		m := r.mism(idx, s, probe, "returned-slice-overwritten-by-later-call op="+op, Describe(r.prevCopy), Describe(r.prevRead))
+		r.prevRead, r.prevCopy = nil, nil
+		return m
+	}
+	if err == nil && op == "get" && len(val) > 0 {
+		r.prevRead, r.prevCopy = val, append([]byte(nil), val...)
+	}
 	e := r.M.Get(actor, key)
 	cls := Class(err)
 	kind := r.actorKind(actor)
